@@ -11,7 +11,9 @@ use ohkami::__verif as v;
 /// OPTIONS the default handler has already set Access-Control-Allow-Methods)
 struct Inner { status: u16, allow_methods: Option<&'static str>, with_body: bool }
 impl FangProc for Inner {
-    async fn bite<'b>(&'b self, _req: &'b mut Request) -> Response {
+    // not an `async fn`: a coroutine awaited from `CORSProc::bite`'s coroutine loses every constant under CBMC
+    // (DESIGN.md section 8.2); the response is prepared eagerly and handed over through `std::future::Ready`
+    fn bite<'b>(&'b self, _req: &'b mut Request) -> impl std::future::Future<Output = Response> + Send + 'b {
         let mut res = match self.status {
             200 => Response::new(Status::OK),
             400 => Response::new(Status::BadRequest),
@@ -20,7 +22,7 @@ impl FangProc for Inner {
         };
         if self.with_body { res.set_text("hi"); }
         if let Some(m) = self.allow_methods { res.headers.set().AccessControlAllowMethods(m); }
-        res
+        std::future::ready(res)
     }
 }
 
@@ -36,13 +38,13 @@ fn any_max_age() -> (u32, &'static str) {
     match k { 0 => (0, "0"), 1 => (5, "5"), _ => (600, "600") }
 }
 
-// @verif prop=C14 tier=off mem=24 replay=none bounds="policy {specific origin, credentials, expose [X-A, X-B], max-age}; simple GET; inner status symbolic over {200, 404, 400} with a body"
+// @verif prop=C14 tier=quick mem=12 replay=none unwindset="=memcmp.0 :24" bounds="policy {specific origin, credentials, expose [X-A, X-B], max-age}; simple GET; inner status symbolic over {200, 404, 400} with a body"
 #[kani::proof]
 #[kani::stub(ohkami::util::unix_timestamp, stubs::unix_timestamp_zero)]
 #[kani::stub(core::str::from_utf8, stubs::from_utf8_model)]
 #[kani::unwind(14)]
 fn c14_simple_request_specific_origin() { simple::<200>() }
-// @verif prop=C14 tier=off mem=24 replay=none bounds="same policy; inner status 404 (the policy applies to errors too)"
+// @verif prop=C14 tier=quick mem=12 replay=none unwindset="=memcmp.0 :24" bounds="same policy; inner status 404 (the policy applies to errors too)"
 #[kani::proof]
 #[kani::stub(ohkami::util::unix_timestamp, stubs::unix_timestamp_zero)]
 #[kani::stub(core::str::from_utf8, stubs::from_utf8_model)]
@@ -54,7 +56,9 @@ fn simple<const STATUS: u16>() {
     let cors = CORS::new("https://o.example").AllowCredentials().ExposeHeaders(["X-A", "X-B"]).MaxAge(age);
     let p = cors.chain(Inner { status, allow_methods: None, with_body: true });
     let mut req = request(Method::GET);
-    let res = block_on(p.bite(&mut req), 2).expect("bite completed");
+    let mut fut = p.bite(&mut req);
+    let res = crate::support::exec::block_on_in_place(&mut fut, 2).expect("bite completed");
+    std::mem::forget(fut);
     assert!(res.status.code() == status, "C14: CORS fang changed the status of a simple response");
     assert!(res.headers.AccessControlAllowOrigin() == Some("https://o.example"), "C14: Access-Control-Allow-Origin is not the configured origin");
     assert!(res.headers.AccessControlAllowCredentials() == Some("true"), "C14: credentials enabled on a specific origin but not advertised");
@@ -66,7 +70,7 @@ fn simple<const STATUS: u16>() {
     std::mem::forget(res); std::mem::forget(req); std::mem::forget(p);
 }
 
-// @verif prop=C14 tier=off mem=48 timeout=1200 replay=none bounds="policy {wildcard origin, AllowCredentials() requested}; simple GET; inner 200 / 404"
+// @verif prop=C14 tier=quick mem=12 timeout=900 replay=none unwindset="=memcmp.0 :24" bounds="policy {wildcard origin, AllowCredentials() requested}; simple GET; inner 200 / 404"
 #[kani::proof]
 #[kani::stub(ohkami::util::unix_timestamp, stubs::unix_timestamp_zero)]
 #[kani::stub(core::str::from_utf8, stubs::from_utf8_model)]
@@ -76,7 +80,9 @@ fn c14_wildcard_never_allows_credentials() {
     let cors = CORS::new("*").AllowCredentials();
     let p = cors.chain(Inner { status: if nf { 404 } else { 200 }, allow_methods: None, with_body: false });
     let mut req = request(Method::GET);
-    let res = block_on(p.bite(&mut req), 2).expect("bite completed");
+    let mut fut = p.bite(&mut req);
+    let res = crate::support::exec::block_on_in_place(&mut fut, 2).expect("bite completed");
+    std::mem::forget(fut);
     assert!(res.headers.AccessControlAllowOrigin() == Some("*"), "C14: wildcard origin not emitted");
     assert!(res.headers.AccessControlAllowCredentials().is_none(), "C14: credentials advertised together with a wildcard origin");
     assert!(res.headers.Vary() == Some("Origin"), "C14: wildcard origin without `Vary: Origin`");
@@ -85,7 +91,7 @@ fn c14_wildcard_never_allows_credentials() {
     std::mem::forget(res); std::mem::forget(req); std::mem::forget(p);
 }
 
-// @verif prop=C14 tier=off mem=24 replay=none bounds="preflight OPTIONS, requested method registered (inner 501 with Allow-Methods preset); policy {specific origin, allow-headers [Content-Type, X-C], max-age symbolic over {0,5,600}}"
+// @verif prop=C14 tier=quick mem=12 replay=none unwindset="=memcmp.0 :24" bounds="preflight OPTIONS, requested method registered (inner 501 with Allow-Methods preset); policy {specific origin, allow-headers [Content-Type, X-C], max-age symbolic over {0,5,600}}"
 #[kani::proof]
 #[kani::stub(ohkami::util::unix_timestamp, stubs::unix_timestamp_zero)]
 #[kani::stub(core::str::from_utf8, stubs::from_utf8_model)]
@@ -96,7 +102,9 @@ fn c14_preflight_success() {
     let p = cors.chain(Inner { status: 501, allow_methods: Some("GET, HEAD, OPTIONS"), with_body: false });
     let mut req = request(Method::OPTIONS);
     v::request_add_header(&mut req, b"Access-Control-Request-Method", b"GET");
-    let res = block_on(p.bite(&mut req), 2).expect("bite completed");
+    let mut fut = p.bite(&mut req);
+    let res = crate::support::exec::block_on_in_place(&mut fut, 2).expect("bite completed");
+    std::mem::forget(fut);
     assert!(res.status.code() >= 200 && res.status.code() < 300, "C14: preflight for a registered method does not succeed");
     assert!(res.payload().is_none() && res.headers.ContentLength().is_none() && res.headers.ContentType().is_none(), "C14: successful preflight carries a body or body headers");
     assert!(res.headers.AccessControlAllowOrigin() == Some("https://o.example"), "C14: Access-Control-Allow-Origin is not the configured origin");
@@ -108,7 +116,7 @@ fn c14_preflight_success() {
     std::mem::forget(res); std::mem::forget(req); std::mem::forget(p);
 }
 
-// @verif prop=C14 tier=off mem=24 replay=none bounds="preflight OPTIONS, no configured allow-headers: the request's Access-Control-Request-Headers (2 symbolic bytes) are echoed; inner 501"
+// @verif prop=C14 tier=quick mem=24 timeout=900 replay=none unwindset="=memcmp.0 :24" bounds="preflight OPTIONS, no configured allow-headers: the request's Access-Control-Request-Headers (2 symbolic bytes) are echoed; inner 501"
 #[kani::proof]
 #[kani::stub(ohkami::util::unix_timestamp, stubs::unix_timestamp_zero)]
 #[kani::stub(core::str::from_utf8, stubs::from_utf8_model)]
@@ -122,7 +130,9 @@ fn c14_preflight_echoes_request_headers() {
     let mut req = request(Method::OPTIONS);
     v::request_add_header(&mut req, b"Access-Control-Request-Method", b"POST");
     v::request_add_header(&mut req, b"Access-Control-Request-Headers", &h[..]);
-    let res = block_on(p.bite(&mut req), 2).expect("bite completed");
+    let mut fut = p.bite(&mut req);
+    let res = crate::support::exec::block_on_in_place(&mut fut, 2).expect("bite completed");
+    std::mem::forget(fut);
     assert!(res.status.code() == 200, "C14: preflight for a registered method does not succeed");
     assert!(res.headers.AccessControlAllowHeaders().map(|x| x.as_bytes() == &h[..]) == Some(true), "C14: requested headers are not echoed");
     assert!(res.headers.AccessControlMaxAge().is_none(), "C14: max-age invented");
@@ -130,13 +140,13 @@ fn c14_preflight_echoes_request_headers() {
     std::mem::forget(res); std::mem::forget(req); std::mem::forget(p);
 }
 
-// @verif prop=C14 tier=off mem=24 replay=none bounds="preflight OPTIONS whose requested method is not registered (inner 400) or that lacks the request-method header (inner 404): stays 4xx; policy with max-age"
+// @verif prop=C14 tier=quick mem=12 replay=none unwindset="=memcmp.0 :24" bounds="preflight OPTIONS whose requested method is not registered (inner 400) or that lacks the request-method header (inner 404): stays 4xx; policy with max-age"
 #[kani::proof]
 #[kani::stub(ohkami::util::unix_timestamp, stubs::unix_timestamp_zero)]
 #[kani::stub(core::str::from_utf8, stubs::from_utf8_model)]
 #[kani::unwind(14)]
 fn c14_preflight_failure_stays_4xx() { preflight_failure::<false>() }
-// @verif prop=C14 tier=off mem=24 replay=none bounds="preflight OPTIONS without Access-Control-Request-Method (inner 404): stays 404"
+// @verif prop=C14 tier=quick mem=12 replay=none unwindset="=memcmp.0 :24" bounds="preflight OPTIONS without Access-Control-Request-Method (inner 404): stays 404"
 #[kani::proof]
 #[kani::stub(ohkami::util::unix_timestamp, stubs::unix_timestamp_zero)]
 #[kani::stub(core::str::from_utf8, stubs::from_utf8_model)]
@@ -148,7 +158,9 @@ fn preflight_failure<const NF: bool>() {
     let p = cors.chain(Inner { status: if nf { 404 } else { 400 }, allow_methods: if nf { None } else { Some("GET, HEAD, OPTIONS") }, with_body: false });
     let mut req = request(Method::OPTIONS);
     if !nf { v::request_add_header(&mut req, b"Access-Control-Request-Method", b"DELETE"); }
-    let res = block_on(p.bite(&mut req), 2).expect("bite completed");
+    let mut fut = p.bite(&mut req);
+    let res = crate::support::exec::block_on_in_place(&mut fut, 2).expect("bite completed");
+    std::mem::forget(fut);
     assert!(res.status.code() == if nf { 404 } else { 400 }, "C14: a failing preflight does not stay 4xx");
     assert!(res.headers.AccessControlAllowOrigin() == Some("https://o.example"), "C14: error response without Access-Control-Allow-Origin");
     kani::cover!(true, "done");
